@@ -7,7 +7,7 @@ from typing import Any, Dict, List, Optional
 from .fdvalues import (BoundExt, ClassVal, CoroVal, EnumVal, ExtVal, FuncVal, GatherVal, Obj, Opaque, PyRaise, Ready,
                        StrT, strt_concat)
 from .report import Unsupported
-from .srcmodel import ClassDef, FuncDef, dotted, norm
+from .srcmodel import ClassDef, FuncDef, dotted, norm, walk_shallow
 
 PASS_THROUGH_DECORATORS = ("singledispatch", "v_args", "staticmethod", "abstractmethod", "post_load", "pre_load", "post_dump",
                            "pre_dump", "inject.params", "params", "classmethod", "property")
@@ -92,20 +92,26 @@ class CallMixin:  # pylint:disable=too-many-public-methods
         return False
 
     def bound_value(self, fn: FuncDef, func: FuncVal) -> Any:
-        """The object bound to the function's name: its decorators applied bottom-up (once per abstract run)."""
-        key = ("bound", fn.qualname, id(func.self_obj) if func.self_obj is not None else 0)
+        """The object bound to the function's name: its decorators applied bottom-up to the plain function (once per
+        abstract run, as at definition time); for a method the result is then bound to the instance."""
+        key = ("bound", fn.qualname, id(func.env) if func.env is not None else 0)
         if key not in self.attr_memo:
             from .fdai import Frame
 
-            val: Any = FuncVal(fn=fn, self_obj=func.self_obj, env=func.env, module=func.module, raw=True)
-            frame = Frame(None, fn.module, None, set())
+            val: Any = FuncVal(fn=fn, self_obj=None, env=func.env, module=func.module, raw=True)
+            frame = Frame(None, fn.module, func.env, set())  # decorators of a nested function see the enclosing variables
             for d in reversed(fn.node.decorator_list):
                 name = dotted(d.func if isinstance(d, ast.Call) else d) or norm(d)
                 if any(name == p or name.endswith("." + p) for p in PASS_THROUGH_DECORATORS):
                     continue
                 val = self.call(self.eval(d, frame), [val], {}, d, frame)
             self.attr_memo[key] = val
-        return self.attr_memo[key]
+        unbound = self.attr_memo[key]
+        if func.self_obj is None:
+            return unbound
+        if isinstance(unbound, FuncVal) and unbound.self_obj is None:
+            return FuncVal(fn=unbound.fn, self_obj=func.self_obj, env=unbound.env, lambda_node=unbound.lambda_node, module=unbound.module, raw=unbound.raw)
+        return Obj("functools.partial", {"func": unbound, "args": [func.self_obj], "kwargs": {}})
 
     def check_decorators(self, fn: FuncDef) -> None:
         for d in fn.node.decorator_list:
@@ -148,6 +154,9 @@ class CallMixin:  # pylint:disable=too-many-public-methods
             if not func.raw and self.has_active_decorators(fn):
                 return self.call(self.bound_value(fn, func), args, kwargs, node, frame)
             if fn.is_async:
+                if any(isinstance(n_, (ast.Yield, ast.YieldFrom)) for n_ in walk_shallow(fn.node)):
+                    # an async generator: its body runs when it is iterated (materialised then, laziness is not modelled)
+                    return Obj("types.AsyncGeneratorType", {"func": func, "args": list(args), "kwargs": dict(kwargs)})
                 return CoroVal(func, list(args), dict(kwargs))
             return self.run_function(func, args, kwargs, node)
         if isinstance(func, ClassVal):
@@ -171,6 +180,8 @@ class CallMixin:  # pylint:disable=too-many-public-methods
             return self.call(m_, list(func.fields["args"][1:]), dict(func.fields["kwargs"]), node, frame)
         if isinstance(func, Obj) and func.cls == "functools.partial":
             return self.call(func.fields["func"], [*func.fields["args"], *args], {**func.fields["kwargs"], **kwargs}, node, frame)
+        if isinstance(func, Obj) and func.cls == "contextlib.cm_factory":
+            return Obj("contextlib.cm", {"fn": func.fields["fn"], "args": list(args), "kwargs": dict(kwargs)})
         if isinstance(func, Obj) and func.cls == "functools.identity_decorator":
             return args[0]
         if isinstance(func, Obj) and func.cls == "functools.lru_cache_decorator":
@@ -280,7 +291,7 @@ class CallMixin:  # pylint:disable=too-many-public-methods
                     val = val.value
                 if isinstance(val, (StrT, Opaque)):
                     raise Unsupported(f"enum lookup {name}({val!r}) with non-literal value")
-                for n, v in self.model.enum_members(cls).items():
+                for n, v in self.members(cls).items():
                     if v == val and type(v) is type(val):
                         return EnumVal(name, n, v)
                 missing = self.model.find_method(cls, "_missing_")
@@ -633,7 +644,7 @@ class CallMixin:  # pylint:disable=too-many-public-methods
             cls = self.model.classes.get(v.name)
             if cls is not None:
                 if self.model.is_enum(cls):
-                    members = self.model.enum_members(cls)
+                    members = self.members(cls)
                     if attr in members:
                         return EnumVal(v.name, attr, members[attr])
                 if attr == "__name__":
@@ -1076,6 +1087,8 @@ class CallMixin:  # pylint:disable=too-many-public-methods
             if isinstance(args[0], Obj) and isinstance(args[1], str):
                 args[0].fields[args[1]] = args[2]
                 return None
+        if short == "globals" and not args and frame is not None:
+            return Obj("builtins.module_globals", {"module": frame.module})
         if short == "len":
             v = args[0]
             if isinstance(v, (list, tuple, dict, set, str)):
@@ -1194,6 +1207,10 @@ class CallMixin:  # pylint:disable=too-many-public-methods
             return [items[i] for i in order]  # completion order = the schedule chosen by the rule
         if name == "asyncio.sleep":
             return Ready(None)
+        if name == "contextlib.contextmanager":
+            return Obj("contextlib.cm_factory", {"fn": args[0]})
+        if name == "contextlib.nullcontext":
+            return Obj("contextlib.nullcontext", {"value": args[0] if args else kwargs.get("enter_result")})
         if name.startswith(("attrs.validators.", "attr.validators.")):
             return Obj("attrs.validator", {"kind": name.rsplit(".", 1)[-1], "args": list(args), "kwargs": dict(kwargs)})
         if name in ("bisect.bisect_right", "bisect.bisect", "bisect.bisect_left"):
@@ -1359,6 +1376,8 @@ class CallMixin:  # pylint:disable=too-many-public-methods
                     continue
                 if isinstance(c, ExtVal):
                     # an external class we do not model: only decidable for repo/builtin values (then False)
+                    if vc is not None and self.is_subclass(vc, c.name):
+                        return True  # a stand-in declared (ext_bases) to be of that external class
                     if vc is not None and not isinstance(v, Opaque):
                         if c.name in ("lark.Tree", "lark.Token") and isinstance(v, Obj):
                             if v.cls == c.name:
